@@ -1,7 +1,7 @@
 #!/usr/bin/env python3
 """Stores / re-evaluates the seeded breaking changes kept under /verif/seeded.
 
-  seeded_store.py import <src dir>     copies <src dir>/<ID>-out/change<N>/{patch.diff,demo.py,meta.json} to seeded/<ID>-<N>/
+  seeded_store.py import <src dir> [offset [ID ...]]   copies <src dir>/<ID>-out/change<N>/{patch.diff,demo.py,meta.json} to seeded/<ID>-<N>/
   seeded_store.py eval [name ...]      runs tools/seeded_eval.py for every stored change (its own property's check, plus the
                                        checks listed under "also" in its meta.json) and records the outcome in meta.json
                                        and in seeded/RESULTS.md
@@ -13,16 +13,18 @@ HERE = os.path.dirname(os.path.dirname(os.path.abspath(__file__)))
 SEEDED = os.path.join(HERE, "seeded")
 
 
-def do_import(src):
+def do_import(src, offset=0, only=None):
   for d in sorted(os.listdir(src)):
     if not d.endswith("-out"):
       continue
     pid = d[:-4]
+    if only and pid not in only:
+      continue
     for c in sorted(os.listdir(os.path.join(src, d))):
       cdir = os.path.join(src, d, c)
       if not (c.startswith("change") and os.path.isfile(os.path.join(cdir, "patch.diff"))):
         continue
-      dst = os.path.join(SEEDED, "%s-%s" % (pid, c[6:]))
+      dst = os.path.join(SEEDED, "%s-%d" % (pid, int(c[6:]) + offset))
       os.makedirs(dst, exist_ok=True)
       for f in ("patch.diff", "demo.py"):
         shutil.copy(os.path.join(cdir, f), os.path.join(dst, f))
@@ -93,6 +95,6 @@ def do_eval(names):
 
 if __name__ == "__main__":
   if sys.argv[1] == "import":
-    do_import(sys.argv[2])
+    do_import(sys.argv[2], int(sys.argv[3]) if len(sys.argv) > 3 else 0, sys.argv[4:] or None)
   else:
     do_eval(sys.argv[2:])
